@@ -27,16 +27,19 @@ def main():
     meta["confirmed"]["unit_tests_with_change"] = out.strip()
     rc, out = sh("cargo test --offline --doc 2>&1 | grep -E '^test result'", wt)
     meta["confirmed"]["doc_tests_with_change"] = out.strip()
-    rc1, out = sh("cargo test --offline --test seeded_demo 2>&1 | grep -E '^test result|FAILED|failed' | head -8", wt)
-    meta["confirmed"]["demo_with_change"] = out.strip()
+    rc1, out = sh("cargo test --offline --test seeded_demo 2>&1", wt)
+    out = "\n".join([l for l in out.split("\n") if re.search(r"^test result|FAILED|failed|signal|SIGABRT|SIGSEGV|double free|AddressSanitizer", l)][:8])
+    meta["confirmed"]["demo_with_change"] = out.strip() + f"\n(exit status {rc1})"
     # (no `git stash`: the stash is shared by all worktrees of a repository)
     tmp = os.path.join(wt, ".seed_tmp.diff")
     sh(f"git diff -- src > {tmp} && git apply -R {tmp}", wt)
-    rc2, out = sh("cargo test --offline --test seeded_demo 2>&1 | grep -E '^test result|FAILED|failed' | head -8", wt)
-    meta["confirmed"]["demo_without_change"] = out.strip()
+    rc2, out = sh("cargo test --offline --test seeded_demo 2>&1", wt)
+    out = "\n".join([l for l in out.split("\n") if re.search(r"^test result|FAILED|failed|signal", l)][:8])
+    meta["confirmed"]["demo_without_change"] = out.strip() + f"\n(exit status {rc2})"
     sh(f"git apply {tmp} && rm {tmp}", wt)
     ok_suite = "94 passed; 0 failed" in meta["confirmed"]["unit_tests_with_change"] and "0 failed" in meta["confirmed"]["doc_tests_with_change"]
-    ok_demo = "FAILED" in meta["confirmed"]["demo_with_change"] and "FAILED" not in meta["confirmed"]["demo_without_change"] and "ok." in meta["confirmed"]["demo_without_change"]
+    # a demonstration may also fail by aborting the test process (a sanitizer-free double free, a stack overflow)
+    ok_demo = rc1 != 0 and rc2 == 0 and "FAILED" not in meta["confirmed"]["demo_without_change"] and "ok." in meta["confirmed"]["demo_without_change"]
     meta["confirmed"]["ok"] = bool(ok_suite and ok_demo)
     print("confirmed:", json.dumps(meta["confirmed"], indent=1))
     if not (ok_suite and ok_demo):
